@@ -262,7 +262,11 @@ def run(ctx):
     from .c01 import rule_additional_complement
     rule_additional_complement(ctx, "R5.12")
     rule_carriers(ctx)
-
+    # R5.14: the errors reported are those of the keyword / element of *this* round of the loop
+    scope.rule_no_deferred_loop_closure(ctx, "R5.14")
+    # R5.15: no behaviour changes at a number fixed in the source (sizes, depths, counts, magnitudes are unbounded in the property's domain)
+    from . import scope as _scope
+    _scope.rule_no_size_thresholds(ctx, 'R5.15', ('validators', '_validators', '_legacy_validators', '_utils'), 'the dispatcher and the keyword functions')
 
 def rule_carriers(ctx, rid="R5.13"):
     """A keyword reaches every value its draft's type checker puts in the keyword's domain: the package's own draft classes, built
